@@ -1,4 +1,5 @@
 mod b64;
+mod deploy;
 mod backends;
 mod drive_paserk;
 mod drive_tokens;
@@ -59,6 +60,13 @@ fn main() {
             let v = obs_cross::feature_material(seed);
             std::fs::write(&out, serde_json::to_vec(&v).unwrap()).unwrap();
             println!("ok");
+        }
+        "deploy" => {
+            let mut rec = Recorder::create(&out);
+            std::panic::set_hook(Box::new(|_| {}));
+            let backends: Vec<String> = arg(&args, "--backends").map(|b| b.split(',').map(|x| x.to_string()).collect()).unwrap_or_else(|| backends::ALL.iter().map(|x| x.to_string()).collect());
+            let v = deploy::run(&mut rec, &arg(&args, "--cases").expect("--cases"), seed, &backends);
+            println!("{}", serde_json::json!({"lines": rec.finish(), "stats": v}));
         }
         "obs-shared" => {
             let mut rec = Recorder::create(&out);
